@@ -114,3 +114,10 @@ package state
 //@ lemma inorder-rollover-agreement: forall o uint32 :: (o == 0xFFFFFFFF) == rollCond(o, (o == 0xFFFFFFFF ? 1 : o + 1))
 // A frame can trigger a rollover only when the receiver is within 256 of the wrap and the number is at most 255.
 //@ lemma rollover-only-near-wrap: forall h uint32, q uint32 :: rollCond(h, q) ==> h >= 0xFFFFFF00 && q <= 255
+
+// ---- identities reach the state only after verification (C01) ------------------------------------
+//@ func State.AddRouter
+//@   requires verified-identity [C01,C04,C07]: address != nil && address.verified
+
+//@ type State
+//@   invariant wired [C13]: nonnil(self.instance) && self.storage != nil
